@@ -640,17 +640,21 @@ class ProgGen:
         for flag in self.isa.get("bool_flags", []):
             lab = rng.choice(planned)
             cond = ("bin", rng.choice([">", "<", ">="]), ("var", 0, [lab]), num(rng.choice([0, 1, 2, 4, 8, 16, 32])))
-            node = ("const", flag, 0, cond)
-            r = rng.random()
-            globals_at = [k for k, it in enumerate(items) if it[0] == "label" and it[2] == 0]
-            if r < 0.4 and globals_at:
-                # between its uses and the label it depends on: the constant then lags the label by one pass and its users
-                # lag it by another (inserted right before a global label, so no local label changes parent)
-                items.insert(rng.choice(globals_at), node)
-            elif r < 0.75:
-                items.append(node)
-            else:
-                items.insert(0, node)
+            # optionally through a chain of further constants (flag = f_1, f_1 = f_2, f_2 = condition): each link declared
+            # before the one it copies lags it by another pass
+            chain = [flag] + ["%s_%d" % (flag, k) for k in range(1, rng.choice([1, 1, 2, 3]))]
+            nodes = [("const", chain[k], 0, ("var", 0, [chain[k + 1]])) for k in range(len(chain) - 1)] + [("const", chain[-1], 0, cond)]
+            for node in nodes:
+                r = rng.random()
+                globals_at = [k for k, it in enumerate(items) if it[0] == "label" and it[2] == 0]
+                if r < 0.4 and globals_at:
+                    # between its uses and the label it depends on: the constant then lags the label by one pass and its
+                    # users lag it by another (inserted right before a global label, so no local label changes parent)
+                    items.insert(rng.choice(globals_at), node)
+                elif r < 0.75:
+                    items.append(node)
+                else:
+                    items.insert(0, node)
         extra_files = {}
         for zk in self.isa.get("late_consts", []):
             v = rng.randint(0, 127)        # incbin reads the file as a *signed* big-endian number: keep the top bit clear
